@@ -3,6 +3,7 @@ import AlgopyVerif.Proofs.Pullback
 import AlgopyVerif.Proofs.MatPullback
 import AlgopyVerif.Proofs.ArrayAdjoint
 import AlgopyVerif.Proofs.EighPullback
+import AlgopyVerif.Proofs.JacobiGeneral
 /-!
 # C03 — reverse mode agrees with forward mode at every Taylor order
 
@@ -177,6 +178,16 @@ theorem matrix_det_adjoint (X Y dX : Matrix n n S) (hXY : X * Y = 1) (ybar r : S
     (∃ c : S, (X + r • dX).det = X.det + X.det * (Y * dX).trace * r + c * r ^ 2)
     ∧ ybar * (X.det * (Y * dX).trace) = pair ((ybar * X.det) • Yᵀ) dX :=
   ⟨det_tangent X Y dX hXY r, det_adjoint X Y dX ybar⟩
+
+/-- `pb_det` at **every** matrix, also a singular one (the branch that evaluates the adjugate division-free): the tangent of
+`det` is `tr(adj(X) dX)` (Jacobi's formula without invertibility) and `Xbar = ybar · adj(X)ᵀ` is its adjoint; for an
+invertible `X` the adjugate is `det X · X⁻¹`, the formula of the LU branch -/
+theorem matrix_det_adjoint_every_matrix (X dX : Matrix n n S) (ybar r : S) :
+    (∃ c : S, (X + r • dX).det = X.det + (X.adjugate * dX).trace * r + c * r ^ 2)
+    ∧ ybar * (X.adjugate * dX).trace = pair (ybar • X.adjugateᵀ) dX
+    ∧ (∀ Y : Matrix n n S, X * Y = 1 → X.adjugate = X.det • Y) :=
+  ⟨AV.Jacobi.det_tangent_adjugate X dX r, AV.Jacobi.det_adjoint_adjugate X dX ybar,
+   fun Y h => AV.Jacobi.adjugate_eq_det_smul_inv X Y h⟩
 end
 
 /-- non-vacuity: a two-instruction tape `c2 := c0 * c1; c0 := c2` over ℤ satisfies `WF` -/
